@@ -22,6 +22,9 @@ pub struct Ill {
     pub ws: Vec<f64>,
     pub cuts: Vec<usize>,
     pub merges: Vec<usize>,
+    /// ingestion path of every chunk of the pair estimators (see c08::build_chunk)
+    #[serde(default)]
+    pub path: u8,
 }
 
 fn tree<T: Uni>(c: &Ill) -> T {
@@ -61,7 +64,7 @@ impl Check for Signs {
         "signs_and_ranges"
     }
     fn fp(&self, c: &Ill, h: &mut Fp) {
-        h.fs(&c.xs).fs(&c.ys).fs(&c.ws).us(&c.cuts).us(&c.merges);
+        h.fs(&c.xs).fs(&c.ys).fs(&c.ws).us(&c.cuts).us(&c.merges).u(c.path as u64);
     }
     fn test(&self, c: &Ill, o: &mut Obs) -> TestResult {
         let n = c.xs.len();
@@ -104,7 +107,7 @@ impl Check for Signs {
         }
         // covariance
         let pairs: Vec<(f64, f64)> = c.xs.iter().copied().zip(c.ys.iter().copied()).collect();
-        let cv: Covariance = build_tree(&pairs, &c.cuts, &c.merges, 0);
+        let cv: Covariance = build_tree(&pairs, &c.cuts, &c.merges, c.path);
         let (ylo, yhi) = rng(&c.ys);
         let ym = ylo.abs().max(yhi.abs());
         in_range(o, "Covariance::mean_x", cv.mean_x(), lo, hi, tol)?;
@@ -119,8 +122,8 @@ impl Check for Signs {
         let wsum: f64 = c.ws.iter().sum();
         if wsum > 0.0 {
             let wp: Vec<(f64, f64)> = c.xs.iter().copied().zip(c.ws.iter().copied()).collect();
-            let wm: WeightedMean = build_tree(&wp, &c.cuts, &c.merges, 0);
-            let we: WeightedMeanWithError = build_tree(&wp, &c.cuts, &c.merges, 0);
+            let wm: WeightedMean = build_tree(&wp, &c.cuts, &c.merges, c.path);
+            let we: WeightedMeanWithError = build_tree(&wp, &c.cuts, &c.merges, c.path);
             let contrib: Vec<f64> = wp.iter().filter(|p| p.1 > 0.0).map(|p| p.0).collect();
             let (clo, chi) = rng(&contrib);
             let cm = clo.abs().max(chi.abs());
@@ -180,6 +183,9 @@ impl Check for Signs {
         let mut out = Vec::new();
         if !c.cuts.is_empty() {
             out.push(Ill { cuts: vec![], merges: vec![], ..c.clone() });
+        }
+        if c.path != 0 {
+            out.push(Ill { path: 0, ..c.clone() });
         }
         for i in 0..c.xs.len().min(40) {
             let mut s = c.clone();
@@ -276,8 +282,8 @@ pub fn ill_values(kind: u8, n: usize, lmag: f64, raw: &[f64]) -> Vec<f64> {
 }
 
 pub fn ill_strategy() -> impl Strategy<Value = Ill> {
-    (0u8..7, prop_oneof![3 => 1usize..12, 3 => 12usize..300, 1 => 300usize..500], -300.0..150.0f64, vec(0.0..1.0f64, 1..64), vec(0.0..1.0f64, 1..64), 0u8..7, prop_oneof![1 => Just(None), 2 => (gen::cut_mode(), gen::tree_mode()).prop_map(Some)], 0u8..7, -300.0..140.0f64)
-        .prop_map(|(kind, n, lmag, raw, raw2, zm, tree, ykind, ylmag)| {
+    (0u8..7, prop_oneof![3 => 1usize..12, 3 => 12usize..300, 1 => 300usize..500], -300.0..150.0f64, vec(0.0..1.0f64, 1..64), vec(0.0..1.0f64, 1..64), 0u8..7, prop_oneof![1 => Just(None), 2 => (gen::cut_mode(), gen::tree_mode()).prop_map(Some)], 0u8..7, -300.0..140.0f64, 0u8..super::c08::PATHS)
+        .prop_map(|(kind, n, lmag, raw, raw2, zm, tree, ykind, ylmag, path)| {
             let xs = ill_values(kind, n, lmag, &raw);
             let ys = ill_values(ykind, n, ylmag, &raw2);
             let wr: Vec<(f64, f64)> = raw.iter().zip(raw2.iter().cycle()).map(|(a, b)| (*a, *b)).collect();
@@ -290,18 +296,18 @@ pub fn ill_strategy() -> impl Strategy<Value = Ill> {
                     (cuts, merges)
                 }
             };
-            Ill { xs, ys, ws, cuts, merges }
+            Ill { xs, ys, ws, cuts, merges, path }
         })
 }
 
 pub fn run(cx: &Ctx) {
-    cx.set_rule("cases = ill-conditioned sequences with NO restriction on kappa: magnitudes 10^U(-300,150), relative spreads of 1e-15, one-ulp spreads, a large value mixed with values 1e-20 times smaller, subnormals, offsets 1e15 times the spread, negative near-constant data; n up to 500; all chunkings and merge trees; Mean, Variance, Skewness, Kurtosis, Moments4, Covariance (independent ill-conditioned y), WeightedMean/WeightedMeanWithError (weights >= 0, total > 0, zero weights placed as in C08). Oracle = sign/range predicates only: every defined variance >= 0 (NaN is a violation), error() not NaN, min - tol <= mean <= max + tol with tol = 8 n u max|x| + n 2^-1074 (weighted mean: 16, range and max over the observations with positive weight), 1 <= effective_len <= len() up to n 2^-50; plus random bin counts: variance(i), variances() in [0, total/4] up to rounding. Non-trivial = kappa > 1e12 or spread <= 4 ulp or |x| < 1e-300 or |x| > 1e100; distinct = hash of the inputs");
+    cx.set_rule("cases = ill-conditioned sequences with NO restriction on kappa: magnitudes 10^U(-300,150), relative spreads of 1e-15, one-ulp spreads, a large value mixed with values 1e-20 times smaller, subnormals, offsets 1e15 times the spread, negative near-constant data; n up to 500; all chunkings and merge trees, the pair estimators additionally through the eight ingestion paths of C08 (add, collect, extend, collect+continue); Mean, Variance, Skewness, Kurtosis, Moments4, Covariance (independent ill-conditioned y), WeightedMean/WeightedMeanWithError (weights >= 0, total > 0, zero weights placed as in C08). Oracle = sign/range predicates only: every defined variance >= 0 (NaN is a violation), error() not NaN, min - tol <= mean <= max + tol with tol = 8 n u max|x| + n 2^-1074 (weighted mean: 16, range and max over the observations with positive weight), 1 <= effective_len <= len() up to n 2^-50; plus random bin counts: variance(i), variances() in [0, total/4] up to rounding. Non-trivial = kappa > 1e12 or spread <= 4 ulp or |x| < 1e-300 or |x| > 1e100; distinct = hash of the inputs");
     cx.assume("overflow is outside the property: |x| <= 1e150 with n <= 500 keeps n^2*4*max|x|^2 below f64::MAX in the merge formulas");
     cx.label("fixed");
     cx.run_list(&Signs, vec![
         // reproducer of known finding K1 (see KNOWN_FINDINGS.txt)
-        Ill { xs: vec![-4.484846e-318, -4.484846e-318], ys: vec![1.0, 1.0], ws: vec![1e-6, 1e-6], cuts: vec![1], merges: vec![0] },
-        Ill { xs: vec![1e9, 1e9 + 1.0, 1e9 + 2.0], ys: vec![-1.0, 0.0, 1.0], ws: vec![0.0, 1.0, 1.0], cuts: vec![1], merges: vec![0] },
+        Ill { xs: vec![-4.484846e-318, -4.484846e-318], ys: vec![1.0, 1.0], ws: vec![1e-6, 1e-6], cuts: vec![1], merges: vec![0], path: 0 },
+        Ill { xs: vec![1e9, 1e9 + 1.0, 1e9 + 2.0], ys: vec![-1.0, 0.0, 1.0], ws: vec![0.0, 1.0, 1.0], cuts: vec![1], merges: vec![0], path: 0 },
     ], "K1 reproducer and a plain offset triple");
     cx.label("generated");
     cx.run_pt(&Signs, cx.by(10000, 100000), cx.workers, ill_strategy, "7 kinds of ill-conditioned data x n 1..500 x magnitudes 1e-300..1e150 x merge trees");
